@@ -26,6 +26,13 @@ claim("C08", "5/C08", "TLA+ NF predicate + Optimize transcription model-checked 
 claim("C13", "5/C13", "TLA+ DictLike predicate; TLC invariant DictIffInv over dict-option environments; recorded results validated by TLC (walk of samples along types)",
       "For every object occurrence in the samples TLC checks 'typed as mapping iff DictLike' on the model for all bounded inputs x option environments and on every recorded real result.", INFER_NOTE)
 
+claim("C05", "5/C05", "TLA+ closure-loop state machine model-checked for all similarity relations (safety + liveness) with TLC; each relation replayed on merge_models via a table comparator; traces validated by TLC (Components, pointer consistency)",
+      "TLC proves on the model that the group-closure loop terminates with exactly the connected components for every relation on <=6 models; every relation, comparator boundary cases and random inputs are run through the real merge_models and TLC recomputes similarity, components, field unions, untouched models and pointer bookkeeping from the logged graphs.",
+      INFER_NOTE)
+claim("C09", "5/C09", "TLA+ registry state machine (StrTypes) model-checked with TLC; TLC-enumerated string grammar and registry op sequences replayed on the real registry/parsers; traces validated by TLC (first-match, covering, round trip)",
+      "Detection order, covering of resolve() and disabled types are TLC invariants of the registry state machine; the real registry is driven through every enumerated operation sequence and the real parsers over the enumerated grammar; TLC checks first-match / covering / round-trip clauses on the logged tables. The round-trip clause is an equality of two logged values (model contributes only the grammar and protocol).",
+      INFER_NOTE)
+
 checks = []
 for pid, (ref, tech, text, note) in sorted(CLAIMS.items()):
     checks.append({
